@@ -161,7 +161,7 @@ func c08Suggest(g *Gen) {
 		for _, h := range []struct {
 			code string
 			h    heuristic.Heuristic
-		}{{"H", heuristic.Halving{}}, {"D", heuristic.DeltaLargest{}}} {
+		}{{"H", heuristic.Halving{}}, {"D", heuristic.DeltaLargest{}}, {"A", heuristic.Approximation{}}} {
 			var out []*big.Int
 			res := ""
 			if pn := safe(func() { out = h.h.Suggest(f, t) }); pn != "" {
